@@ -251,7 +251,15 @@ UNITS["CG"] = dict(
                                 "info": "bool", "M": "V -> V"},
                         kind="value", slice=("x = x0", "if info"), counters=["ii"], coqname="cg_loop",
                         returns=["x", "r", "z", "p", "num", "ii"], given=["x0", "M"],
+                        locals={"x": "V", "r": "V", "z": "V", "p": "V", "num": "K"},
                         callees={"snp.linalg.norm": ("nrm_", [])})})
+
+UNITS["STACK"] = dict(
+    out="C12_Stack", file="scico/operator/_stack.py", classes=[], context="", eqb="nshape_eqb", hd0="hd0_",
+    imports=["From SV Require Import C12.Shape C12.GenSig."],
+    methods={"is_collapsible": dict(params={"shapes": "list nshape"}, kind="value"),
+             "is_blockable": dict(params={"shapes": "list nshape"}, kind="value",
+                                  callees={"is_nested": ("is_nested", [])})})
 
 
 class Env:
@@ -437,6 +445,8 @@ class Tr:
         if isinstance(e, ast.Compare):
             if len(e.ops) == 1:
                 op, l, r = e.ops[0], e.left, e.comparators[0]
+                if isinstance(op, ast.Eq) and self.u.get("eqb"):
+                    return f"({self.u['eqb']} {X(l)} {X(r)})"
                 if isinstance(op, ast.Eq) and not self.u.get("array"):
                     return f"(keqb {X(l)} {X(r)})"
                 zero = lambda t: isinstance(t, ast.Constant) and not isinstance(t.value, bool) and t.value == 0
@@ -463,6 +473,8 @@ class Tr:
             return out
         if isinstance(e, ast.Subscript):
             v = e.value
+            if self.u.get("hd0") and isinstance(v, ast.Name) and isinstance(e.slice, ast.Constant) and e.slice.value == 0:
+                return f"({self.u['hd0']} {X(v)})"      # x[0] (only evaluated when x is non-empty)
             if isinstance(v, ast.Attribute) and v.attr in SHAPE_ATTRS and isinstance(e.slice, ast.Constant) \
                     and not any(isinstance(n_, ast.Call) for n_ in ast.walk(v.value)):
                 return "tt"
@@ -481,6 +493,17 @@ class Tr:
                 if isinstance(f, ast.Name) and f.id == "cvjp" and len(v.args) == 2 and not v.keywords:
                     return f"(cvjp_ {X(v.args[0])} {X(v.args[1])})"
             self.bad(e, "subscript")
+        if isinstance(e, ast.Call) and isinstance(e.func, ast.Name) and e.func.id in ("all", "any") \
+                and len(e.args) == 1 and not e.keywords and isinstance(e.args[0], ast.GeneratorExp):
+            g = e.args[0]
+            if len(g.generators) != 1 or g.generators[0].ifs or g.generators[0].is_async \
+                    or not isinstance(g.generators[0].target, ast.Name):
+                self.bad(e, "generator")
+            gen = g.generators[0]
+            env2 = env.copy()
+            env2.names[gen.target.id] = "v_" + gen.target.id
+            fn_ = "forallb" if e.func.id == "all" else "existsb"
+            return f"({fn_} (fun v_{gen.target.id} => {self.test(g.elt, env2)}) {X(gen.iter)})"
         if isinstance(e, ast.Call):
             return self.call(e, env)
         self.bad(e, "expression " + type(e).__name__)
@@ -928,7 +951,14 @@ class Tr:
         if keep_cnt:
             env.names[cnt] = "v_" + cnt
         accpat = cvars[0] if len(cvars) == 1 else "'" + tup(cvars)
-        s = (f"let {accpat} := (fix loop_ (fuel_ : nat) acc_ {{struct fuel_}} :=\n"
+        tys = [(self.fields.get(n) if kd == "attr" else
+                (self.m.get("locals", {}).get(n) or self.m.get("params", {}).get(n))) or "_" for kd, n in carried]
+        if keep_cnt:
+            tys.append("nat")
+        accty = " * ".join(tys)
+        accb = "acc_" if all(t == "_" for t in tys) else f"(acc_ : {accty})"
+        rty = "" if all(t == "_" for t in tys) else f" : {accty}"
+        s = (f"let {accpat} := (fix loop_ (fuel_ : nat) {accb} {{struct fuel_}}{rty} :=\n"
              f"  match fuel_ with\n  | O => acc_\n  | S fuel_ => let {accpat} := acc_ in\n{bodytxt}\n  end) {bound} {tup(init)} in\n")
         return s + cont(env)
 
@@ -1120,10 +1150,12 @@ def gen_unit(name, repo, src_override=None):
     hdr += u.get("imports", [])
     for r in u.get("requires", []):
         hdr.append(f"From SVGen Require Import {r}.")
-    ctxt = u.get("context") or ("{K : Type} {NK : Num K} {SK : Sqrt K} "
+    ctxt = u["context"] if "context" in u else ("{K : Type} {NK : Num K} {SK : Sqrt K} "
                                 + " ".join(f"{{{s} : Type}} {{V{s} : VecOps K {s}}}" for s in u["spaces"])
                                 + " " + " ".join(u.get("oracles", [])))
-    hdr += ["Import ListNotations.", "Local Open Scope py_scope.", "", f"Section {name}.", f"  Context {ctxt}."]
+    hdr += ["Import ListNotations.", "Local Open Scope py_scope.", "", f"Section {name}."]
+    if ctxt.strip():
+        hdr.append(f"  Context {ctxt}.")
     body = []
     try:
         tree = ast.parse(Path(fn).read_text(), filename=fn)
